@@ -828,3 +828,551 @@ Lemma order_irrelevant_mem : forall x a a', Permutation a a' ->
 Proof. intros. apply vof_list_perm_elems. assumption. Qed.
 
 (* ================================================================== *)
+(* 7. outside the known-finding classes the faithful model satisfies the property *)
+(* ================================================================== *)
+Open Scope list_scope.
+
+Lemma fold_add_In : forall (A : Type) (eqb : A -> A -> bool) l acc x,
+  In x (fold_left (add eqb) l acc) -> In x acc \/ In x l.
+Proof.
+  intros A eqb l. induction l as [|y l IH]; intros acc x H; cbn [fold_left] in H; [left; exact H|].
+  apply IH in H as [H|H]; [|right; right; exact H].
+  unfold add in H. destruct (memb eqb y acc); [left; exact H|].
+  apply in_app_or in H as [H|[H|[]]]; [left; exact H | right; left; exact H].
+Qed.
+
+Lemma of_list_In : forall (A : Type) (eqb : A -> A -> bool) l x, In x (of_list eqb l) -> In x l.
+Proof. intros A eqb l x H. apply fold_add_In in H as [[]|H]. exact H. Qed.
+
+Lemma of_list_incl : forall (A : Type) (eqb : A -> A -> bool) l W, incl l W -> incl (of_list eqb l) W.
+Proof. intros A eqb l W H x Hx. apply H. eapply of_list_In. exact Hx. Qed.
+
+(* on W the hash, the implementation's == and the canonical equality coincide *)
+Definition agreeW (W : list val) : Prop :=
+  forall x y, In x W -> In y W ->
+    heq x y = veq x y /\ feq x y = veq x y /\ (veq x y = true -> kind_text x = kind_text y).
+
+Lemma all_agree_agreeW : forall W, all_agree W = true -> agreeW W.
+Proof.
+  intros W H x y Hx Hy. unfold all_agree in H. rewrite forallb_forall in H.
+  specialize (H x Hx). rewrite forallb_forall in H. specialize (H y Hy). unfold agree in H.
+  apply andb_true_iff in H as [H H3]. apply andb_true_iff in H as [H1 H2].
+  apply Bool.eqb_prop in H1, H2. repeat split; try assumption.
+  intros Hv. rewrite Hv in H3. cbn in H3. apply String.eqb_eq. exact H3.
+Qed.
+
+Lemma tag_app : forall r l l', tag r (l ++ l') = tag r l ++ tag r l'.
+Proof. intros. unfold tag. apply map_app. Qed.
+
+Lemma snd_tag : forall r l, map snd (tag r l) = l.
+Proof. intros r l. unfold tag. rewrite map_map. cbn. apply map_id. Qed.
+
+Section Holds.
+  Context (W : list val) (HW : agreeW W).
+
+  Lemma memb_theq_tag : forall rx x r acc, In x W -> incl acc W ->
+    memb theq (rx, x) (tag r acc) = Bool.eqb rx r && memb veq x acc.
+  Proof.
+    intros rx x r acc Hx. induction acc as [|y acc IH]; intros Hacc.
+    - cbn. rewrite andb_false_r. reflexivity.
+    - cbn [tag map]. fold (tag r acc). rewrite !memb_cons, IH by (intros z Hz; apply Hacc; right; exact Hz).
+      unfold theq. cbn [fst snd]. destruct (HW x y Hx (Hacc y (or_introl eq_refl))) as (H1 & _ & _).
+      rewrite H1. destruct (Bool.eqb rx r); reflexivity.
+  Qed.
+
+  Lemma Fget_tag : forall rx x r s, In x W -> incl s W ->
+    Fget (rx, x) (tag r s) = Bool.eqb rx r && memb veq x s.
+  Proof.
+    intros rx x r s Hx Hs. destruct s as [|y [|z s']].
+    - cbn. rewrite andb_false_r. reflexivity.
+    - cbn [tag map Fget]. unfold tfeq. cbn [fst snd]. rewrite memb_cons, memb_nil, orb_false_r.
+      destruct (HW x y Hx (Hs y (or_introl eq_refl))) as (_ & H2 & _). rewrite H2. reflexivity.
+    - change (Fget (rx, x) (tag r (y :: z :: s'))) with (memb theq (rx, x) (tag r (y :: z :: s'))).
+      apply memb_theq_tag; assumption.
+  Qed.
+
+  Lemma fold_add_tag : forall r l acc, incl l W -> incl acc W ->
+    fold_left (add theq) (tag r l) (tag r acc) = tag r (fold_left (add veq) l acc).
+  Proof.
+    intros r l. induction l as [|x l IH]; intros acc Hl Hacc; [reflexivity|].
+    cbn [tag map fold_left]. fold (tag r l).
+    assert (Hx : In x W) by (apply Hl; left; reflexivity).
+    assert (Hadd : add theq (tag r acc) (r, x) = tag r (add veq acc x)).
+    { unfold add. rewrite memb_theq_tag by assumption. rewrite Bool.eqb_reflx. cbn [andb].
+      destruct (memb veq x acc); [reflexivity|]. rewrite tag_app. reflexivity. }
+    rewrite Hadd. apply IH.
+    - intros z Hz. apply Hl. right. exact Hz.
+    - intros z Hz. unfold add in Hz. destruct (memb veq x acc); [apply Hacc; exact Hz|].
+      apply in_app_or in Hz as [Hz|[Hz|[]]]; [apply Hacc; exact Hz | subst; exact Hx].
+  Qed.
+
+  Lemma Fbuild_tag : forall r l, incl l W -> Fbuild (tag r l) = tag r (of_list veq l).
+  Proof.
+    intros r l Hl. unfold Fbuild, of_list. apply (fold_add_tag r l [] Hl). intros z [].
+  Qed.
+
+  (* filtering one operand by look-ups in the other *)
+  Lemma filter_Fget_tag : forall (p : bool -> bool) ra rb sa sb,
+    incl sa W -> incl sb W -> (ra = rb \/ sa = [] \/ sb = []) ->
+    filter (fun t => p (Fget t (tag rb sb))) (tag ra sa) = tag ra (filter (fun x => p (memb veq x sb)) sa).
+  Proof.
+    intros p ra rb sa sb Ha Hb Hc. induction sa as [|x sa IH]; [reflexivity|].
+    assert (Hx : In x W) by (apply Ha; left; reflexivity).
+    assert (Hsa : incl sa W) by (intros z Hz; apply Ha; right; exact Hz).
+    assert (Hg : Fget (ra, x) (tag rb sb) = memb veq x sb).
+    { rewrite Fget_tag by assumption. destruct Hc as [Hc|[Hc|Hc]].
+      - subst. rewrite Bool.eqb_reflx. reflexivity.
+      - discriminate.
+      - subst. rewrite andb_false_r. reflexivity. }
+    cbn [tag map filter]. fold (tag ra sa). rewrite Hg.
+    assert (IH' : filter (fun t => p (Fget t (tag rb sb))) (tag ra sa) = tag ra (filter (fun x => p (memb veq x sb)) sa)).
+    { destruct sa as [|x' sa']; [reflexivity|]. apply IH; [exact Hsa|].
+      destruct Hc as [Hc|[Hc|Hc]]; [left; exact Hc | discriminate | right; right; exact Hc]. }
+    rewrite IH'. destruct (p (memb veq x sb)); reflexivity.
+  Qed.
+End Holds.
+
+Definition samekind (l : list val) : Prop := forall x y, In x l -> In y l -> kind_text x = kind_text y.
+
+Lemma uniform_samekind : forall l, uniform l = true <-> samekind l.
+Proof.
+  intros [|x r]; cbn [uniform].
+  - split; [intros _ ? ? [] | reflexivity].
+  - rewrite forallb_forall. split.
+    + intros H y z Hy Hz.
+      assert (Hk : forall w, In w (x :: r) -> kind_text w = kind_text x).
+      { intros w [Hw|Hw]; [subst; reflexivity | apply String.eqb_eq, H; exact Hw]. }
+      rewrite (Hk y Hy), (Hk z Hz). reflexivity.
+    + intros H y Hy. apply String.eqb_eq. apply H; [right; exact Hy | left; reflexivity].
+Qed.
+
+Lemma samekind_incl : forall l l', samekind l -> incl l' l -> samekind l'.
+Proof. intros l l' H Hi x y Hx Hy. apply H; apply Hi; assumption. Qed.
+
+Lemma check_self : forall E,
+  nodupb veq E = true -> samekind E -> forallb val_ok E = true ->
+  exists t, check_set E (elem_kind E) (Z.of_nat (List.length E)) E = VOk t.
+Proof.
+  intros E Hn Hk Hv. unfold check_set. rewrite Hn, Z.eqb_refl. cbn [negb].
+  assert (Hs : same_elems veq E E = true) by (apply vsame_elems_spec; reflexivity).
+  rewrite Hs. cbn [negb].
+  assert (Hko : kinds_ok (elem_kind E) E = true).
+  { destruct E as [|x r]; [reflexivity|]. unfold kinds_ok, elem_kind. apply forallb_forall.
+    intros y Hy. apply String.eqb_eq. apply Hk; [exact Hy | left; reflexivity]. }
+  rewrite Hko, Hv. cbn [negb andb]. eexists. reflexivity.
+Qed.
+
+Lemma tag_merge : forall ra rb l1 l2, (ra = rb \/ l1 = [] \/ l2 = []) ->
+  exists r', tag ra l1 ++ tag rb l2 = tag r' (l1 ++ l2).
+Proof.
+  intros ra rb l1 l2 [H|[H|H]]; subst.
+  - exists rb. rewrite tag_app. reflexivity.
+  - exists rb. reflexivity.
+  - exists ra. cbn. rewrite !app_nil_r. reflexivity.
+Qed.
+
+Lemma filter_incl : forall (A : Type) (p : A -> bool) l W, incl l W -> incl (filter p l) W.
+Proof. intros A p l W H x Hx. apply filter_In in Hx as [Hx _]. apply H. exact Hx. Qed.
+
+Lemma Fop_tag : forall W, agreeW W -> forall o ra rb sa sb,
+  incl sa W -> incl sb W -> (ra = rb \/ sa = [] \/ sb = []) ->
+  exists r', Fop o (tag ra sa) (tag rb sb) = tag r' (set_op o sa sb).
+Proof.
+  intros W HW o ra rb sa sb Ha Hb Hc.
+  assert (Hc' : rb = ra \/ sb = [] \/ sa = []) by (destruct Hc as [Hc|[Hc|Hc]]; auto).
+  pose proof (filter_Fget_tag W HW negb ra rb sa sb Ha Hb Hc) as Hout_ab.
+  pose proof (filter_Fget_tag W HW negb rb ra sb sa Hb Ha Hc') as Hout_ba.
+  pose proof (filter_Fget_tag W HW (fun b => b) ra rb sa sb Ha Hb Hc) as Hin_ab.
+  cbn beta in Hin_ab.
+  destruct o; cbn [Fop set_op].
+  - rewrite Hout_ba.
+    destruct (tag_merge ra rb sa (filter (fun x => negb (memb veq x sa)) sb)) as (r' & Hr).
+    { destruct Hc as [Hc|[Hc|Hc]]; [left; exact Hc | right; left; exact Hc | right; right; subst; reflexivity]. }
+    rewrite Hr. exists r'. rewrite (Fbuild_tag W HW); [reflexivity|].
+    apply incl_app; [exact Ha | apply filter_incl; exact Hb].
+  - rewrite Hin_ab. exists ra. rewrite (Fbuild_tag W HW); [reflexivity|]. apply filter_incl; exact Ha.
+  - rewrite Hout_ab. exists ra. rewrite (Fbuild_tag W HW); [reflexivity|]. apply filter_incl; exact Ha.
+  - rewrite Hout_ab, Hout_ba.
+    destruct (tag_merge ra rb (filter (fun x => negb (memb veq x sb)) sa) (filter (fun x => negb (memb veq x sa)) sb)) as (r' & Hr).
+    { destruct Hc as [Hc|[Hc|Hc]]; [left; exact Hc | right; left; subst; reflexivity | right; right; subst; reflexivity]. }
+    rewrite Hr. exists r'. rewrite (Fbuild_tag W HW); [reflexivity|].
+    apply incl_app; apply filter_incl; assumption.
+Qed.
+
+Lemma set_op_incl : forall o sa sb, incl (set_op o sa sb) (sa ++ sb).
+Proof.
+  intros o sa sb x Hx. destruct o; cbn [set_op] in Hx; apply of_list_In in Hx.
+  - apply in_app_or in Hx as [Hx|Hx]; apply in_or_app; [left; exact Hx|].
+    right. apply filter_In in Hx as [Hx _]. exact Hx.
+  - apply filter_In in Hx as [Hx _]. apply in_or_app. left. exact Hx.
+  - apply filter_In in Hx as [Hx _]. apply in_or_app. left. exact Hx.
+  - apply in_app_or in Hx as [Hx|Hx]; apply filter_In in Hx as [Hx _]; apply in_or_app; [left|right]; exact Hx.
+Qed.
+
+Lemma set_op_incl_l : forall o sa sb, (o = OInter \/ o = ODiff) -> incl (set_op o sa sb) sa.
+Proof.
+  intros o sa sb [H|H] x Hx; subst; cbn [set_op] in Hx; apply of_list_In in Hx;
+    apply filter_In in Hx as [Hx _]; exact Hx.
+Qed.
+
+Lemma Fsubset_tag : forall W, agreeW W -> forall ra rb sa sb,
+  incl sa W -> incl sb W -> nodupb veq sa = true -> (ra = rb \/ sa = [] \/ sb = []) ->
+  Fsubset (tag ra sa) (tag rb sb) = subset veq sa sb.
+Proof.
+  intros W HW ra rb sa sb Ha Hb Hn Hc. unfold Fsubset, tag. rewrite !map_length. fold (tag ra sa) (tag rb sb).
+  assert (Hf : forallb (fun t => Fget t (tag rb sb)) (tag ra sa) = subset veq sa sb).
+  { unfold subset. clear Hn. induction sa as [|x sa IH]; [reflexivity|].
+    assert (Hx : In x W) by (apply Ha; left; reflexivity).
+    assert (Hsa : incl sa W) by (intros z Hz; apply Ha; right; exact Hz).
+    cbn [tag map forallb]. fold (tag ra sa). rewrite (Fget_tag W HW) by assumption.
+    destruct Hc as [Hc|[Hc|Hc]]; [| discriminate |].
+    - subst. rewrite Bool.eqb_reflx. cbn [andb]. f_equal. apply IH; [exact Hsa | left; reflexivity].
+    - subst. cbn. rewrite andb_false_r. reflexivity. }
+  rewrite Hf. destruct (subset veq sa sb) eqn:Hs; [|apply andb_false_r].
+  rewrite andb_true_r. apply Nat.leb_le.
+  apply (subset_length veq veq_refl veq_sym veq_trans); [exact Hn | apply vsubset_spec; exact Hs].
+Qed.
+
+Lemma forallb_incl : forall (A : Type) (f : A -> bool) l W, forallb f W = true -> incl l W -> forallb f l = true.
+Proof.
+  intros A f l W H Hi. rewrite forallb_forall in *. intros x Hx. apply H, Hi, Hx.
+Qed.
+
+Lemma samekind_app : forall a b, samekind a -> samekind b ->
+  (a = [] \/ b = [] \/ exists x y, In x a /\ In y b /\ kind_text x = kind_text y) -> samekind (a ++ b).
+Proof.
+  intros a b Ha Hb [H|[H|(x & y & Hx & Hy & Hk)]]; subst.
+  - exact Hb.
+  - rewrite app_nil_r. exact Ha.
+  - intros u v Hu Hv. apply in_app_or in Hu, Hv.
+    destruct Hu as [Hu|Hu], Hv as [Hv|Hv].
+    + apply Ha; assumption.
+    + rewrite (Ha u x Hu Hx), Hk. apply Hb; assumption.
+    + rewrite (Hb u y Hu Hy), <- Hk. apply Ha; assumption.
+    + apply Hb; assumption.
+Qed.
+
+Lemma mk_set_tag : forall r E, mk_set (tag r E) = SSet (elem_kind E) (Z.of_nat (List.length E)) E.
+Proof. intros. unfold mk_set. rewrite snd_tag. reflexivity. Qed.
+
+Lemma of_list_nil_inv : forall a, a = [] -> of_list veq a = [].
+Proof. intros; subst; reflexivity. Qed.
+
+Lemma incl_app_l : forall (A : Type) (l a b : list A), incl l a -> incl l (a ++ b).
+Proof. intros A l a b H x Hx. apply in_or_app. left. apply H, Hx. Qed.
+Lemma incl_app_r : forall (A : Type) (l a b : list A), incl l b -> incl l (a ++ b).
+Proof. intros A l a b H x Hx. apply in_or_app. right. apply H, Hx. Qed.
+
+Lemma holds_check : forall c o,
+  wf_case c = true -> kf_class c = None -> faithful c = Some o -> exists t, check c o = VOk t.
+Proof.
+  intros c o Hwf Hkf Hf. unfold wf_case in Hwf.
+  apply andb_true_iff in Hwf as [Hwf _]. apply andb_true_iff in Hwf as [Hvok Hops].
+  destruct c as [ra a|op ra rb a b|r ra rb a b|neg ra x a|out qs]; [| | | |discriminate].
+  - (* literal *)
+    unfold kf_class in Hkf. cbn [variable_elements mixed_operands written] in Hkf.
+    destruct (all_agree a) eqn:Hag; [|destruct (all_agree (map norm0 a)); discriminate].
+    pose proof (all_agree_agreeW a Hag) as HW. cbn [case_vals written] in Hvok.
+    cbn [faithful] in Hf. unfold check. cbn [expected].
+    set (E := of_list veq a) in *.
+    assert (HE : incl E a) by (apply of_list_incl; apply incl_refl).
+    destruct (uniform a) eqn:Hu; inversion Hf; subst o.
+    + rewrite (Fbuild_tag a HW) by apply incl_refl. rewrite mk_set_tag. apply check_self.
+      * apply vnodupb_of_list.
+      * apply (samekind_incl a); [apply uniform_samekind; exact Hu | exact HE].
+      * apply (forallb_incl _ _ _ a); assumption.
+    + destruct (uniform E) eqn:HuE; [|eexists; reflexivity]. exfalso.
+      apply uniform_samekind in HuE.
+      assert (Hs : samekind a).
+      { assert (Hrep : forall x, In x a -> exists x', In x' E /\ kind_text x = kind_text x').
+        { intros x Hx. assert (Hm : memb veq x E = true) by (unfold E; rewrite vmemb_of_list; apply vmemb_In; exact Hx).
+          apply inS_iff in Hm as (x' & Hx' & Hv). exists x'. split; [exact Hx'|].
+          apply (HW x x' Hx (HE x' Hx')). exact Hv. }
+        intros x y Hx Hy. destruct (Hrep x Hx) as (x' & Hx' & Hkx). destruct (Hrep y Hy) as (y' & Hy' & Hky).
+        rewrite Hkx, Hky. apply HuE; assumption. }
+      apply uniform_samekind in Hs. congruence.
+  - (* operator *)
+    unfold kf_class in Hkf. destruct (variable_elements (CBin op ra rb a b)) eqn:Hve; [discriminate|].
+    destruct (mixed_operands (CBin op ra rb a b)) eqn:Hmx; [discriminate|].
+    cbn [written] in Hkf.
+    destruct (all_agree (a ++ b)) eqn:Hag; [|destruct (all_agree (map norm0 (a ++ b))); discriminate].
+    pose proof (all_agree_agreeW _ Hag) as HW. cbn [case_vals written] in Hvok.
+    cbn [operands_ok] in Hops. apply andb_true_iff in Hops as [Hua Hub].
+    apply uniform_samekind in Hua, Hub.
+    cbn [faithful] in Hf. inversion Hf; subst o. unfold check. cbn [expected].
+    set (sa := of_list veq a) in *. set (sb := of_list veq b) in *.
+    assert (Hsa : incl sa a) by (apply of_list_incl; apply incl_refl).
+    assert (Hsb : incl sb b) by (apply of_list_incl; apply incl_refl).
+    assert (HsaW : incl sa (a ++ b)) by (apply incl_app_l; exact Hsa).
+    assert (HsbW : incl sb (a ++ b)) by (apply incl_app_r; exact Hsb).
+    assert (Hc : ra = rb \/ sa = [] \/ sb = []).
+    { cbn [variable_elements] in Hve. destruct (Bool.eqb ra rb) eqn:Hr; [left; apply Bool.eqb_prop; exact Hr|].
+      cbn [negb andb] in Hve. destruct a as [|? ?]; [right; left; reflexivity|].
+      destruct b as [|? ?]; [right; right; reflexivity | discriminate]. }
+    rewrite (Fbuild_tag (a ++ b) HW ra a) by (apply incl_app_l, incl_refl).
+    rewrite (Fbuild_tag (a ++ b) HW rb b) by (apply incl_app_r, incl_refl).
+    fold sa sb. destruct (Fop_tag (a ++ b) HW op ra rb sa sb HsaW HsbW Hc) as (r' & Hr').
+    rewrite Hr', mk_set_tag. apply check_self.
+    + apply set_op_nodup.
+    + assert (Hio : op = OInter \/ op = ODiff \/ op = OUnion \/ op = OSym) by (destruct op; auto).
+      destruct Hio as [Hio|[Hio|Hio]].
+      * apply (samekind_incl a); [exact Hua|]. intros z Hz. apply Hsa. apply (set_op_incl_l op sa sb); [left; exact Hio | exact Hz].
+      * apply (samekind_incl a); [exact Hua|]. intros z Hz. apply Hsa. apply (set_op_incl_l op sa sb); [right; exact Hio | exact Hz].
+      * apply (samekind_incl (a ++ b)).
+        -- apply samekind_app; [exact Hua | exact Hub|].
+           destruct a as [|x a']; [left; reflexivity|]. destruct b as [|y b']; [right; left; reflexivity|].
+           right; right. exists x, y. split; [left; reflexivity|]. split; [left; reflexivity|].
+           cbn [mixed_operands] in Hmx.
+           destruct Hio as [Hio|Hio]; subst op; cbn [andb] in Hmx; apply negb_false_iff in Hmx;
+             apply String.eqb_eq; exact Hmx.
+        -- intros z Hz. apply set_op_incl in Hz. apply in_app_or in Hz as [Hz|Hz]; apply in_or_app;
+             [left; apply Hsa | right; apply Hsb]; exact Hz.
+    + apply (forallb_incl _ _ _ (a ++ b)); [exact Hvok|].
+      intros z Hz. apply set_op_incl in Hz. apply in_app_or in Hz as [Hz|Hz]; [apply HsaW | apply HsbW]; exact Hz.
+  - (* relation *)
+    unfold kf_class in Hkf. destruct (variable_elements (CRel r ra rb a b)) eqn:Hve; [discriminate|].
+    cbn [mixed_operands written] in Hkf.
+    destruct (all_agree (a ++ b)) eqn:Hag; [|destruct (all_agree (map norm0 (a ++ b))); discriminate].
+    pose proof (all_agree_agreeW _ Hag) as HW.
+    cbn [faithful] in Hf. inversion Hf; subst o. unfold check. cbn [expected].
+    set (sa := of_list veq a) in *. set (sb := of_list veq b) in *.
+    assert (HsaW : incl sa (a ++ b)) by (apply incl_app_l, of_list_incl, incl_refl).
+    assert (HsbW : incl sb (a ++ b)) by (apply incl_app_r, of_list_incl, incl_refl).
+    assert (Hna : nodupb veq sa = true) by apply vnodupb_of_list.
+    assert (Hnb : nodupb veq sb = true) by apply vnodupb_of_list.
+    assert (Hc : ra = rb \/ sa = [] \/ sb = []).
+    { cbn [variable_elements] in Hve. destruct (Bool.eqb ra rb) eqn:Hr; [left; apply Bool.eqb_prop; exact Hr|].
+      cbn [negb andb] in Hve. destruct a as [|? ?]; [right; left; reflexivity|].
+      destruct b as [|? ?]; [right; right; reflexivity | discriminate]. }
+    assert (Hc' : rb = ra \/ sb = [] \/ sa = []) by (destruct Hc as [Hc|[Hc|Hc]]; auto).
+    rewrite (Fbuild_tag (a ++ b) HW ra a) by (apply incl_app_l, incl_refl).
+    rewrite (Fbuild_tag (a ++ b) HW rb b) by (apply incl_app_r, incl_refl).
+    fold sa sb.
+    assert (Hrel : Frel r (tag ra sa) (tag rb sb) = rel_op r sa sb).
+    { pose proof (Fsubset_tag (a ++ b) HW ra rb sa sb HsaW HsbW Hna Hc) as H1.
+      pose proof (Fsubset_tag (a ++ b) HW rb ra sb sa HsbW HsaW Hnb Hc') as H2.
+      destruct r; cbn [Frel rel_op]; unfold tag; rewrite ?map_length; fold (tag ra sa) (tag rb sb); rewrite ?H1, ?H2.
+      - reflexivity.
+      - apply (vpsubset_len_spec sa sb Hna Hnb).
+      - reflexivity.
+      - apply (vpsubset_len_spec sb sa Hnb Hna). }
+    rewrite Hrel. rewrite Bool.eqb_reflx. eexists. reflexivity.
+  - (* membership *)
+    unfold kf_class in Hkf. destruct (variable_elements (CMem neg ra x a)) eqn:Hve; [discriminate|].
+    cbn [mixed_operands written] in Hkf.
+    destruct (all_agree (x :: a)) eqn:Hag; [|destruct (all_agree (map norm0 (x :: a))); discriminate].
+    pose proof (all_agree_agreeW _ Hag) as HW.
+    cbn [operands_ok] in Hops. apply uniform_samekind in Hops.
+    cbn [faithful] in Hf. inversion Hf; subst o. unfold check. cbn [expected].
+    set (sa := of_list veq a) in *.
+    assert (Hsa : incl sa a) by (apply of_list_incl; apply incl_refl).
+    assert (HsaW : incl sa (x :: a)) by (intros z Hz; right; apply Hsa; exact Hz).
+    rewrite (Fbuild_tag (x :: a) HW ra a) by (intros z Hz; right; exact Hz). fold sa.
+    assert (Hm : Fmem x (tag ra sa) = memb veq x sa).
+    { destruct sa as [|y s'] eqn:Hsa_eq; [reflexivity|].
+      assert (Hra : ra = false).
+      { cbn [variable_elements] in Hve. destruct ra; [|reflexivity]. destruct a; [discriminate Hsa_eq | discriminate Hve]. }
+      subst ra. cbn [tag map Fmem negb andb]. change ((false, y) :: map (pair false) s') with (tag false (y :: s')).
+      rewrite (Fget_tag (x :: a) HW) by (try (left; reflexivity); exact HsaW). cbn [Bool.eqb andb].
+      destruct (memb veq x (y :: s')) eqn:Hmem; [|apply andb_false_r]. rewrite andb_true_r.
+      apply inS_iff in Hmem as (z & Hz & Hv). apply String.eqb_eq.
+      assert (Hkx : kind_text x = kind_text z).
+      { apply (HW x z); [left; reflexivity | apply HsaW; exact Hz | exact Hv]. }
+      rewrite Hkx. apply Hops; apply Hsa; [left; reflexivity | exact Hz]. }
+    rewrite Hm, Bool.eqb_reflx. eexists. reflexivity.
+Qed.
+
+Lemma holds : forall c o,
+  wf_case c = true -> kf_class c = None -> faithful c = Some o -> C14_spec c o.
+Proof.
+  intros c o H1 H2 H3. destruct (holds_check c o H1 H2 H3) as (t & Ht). exact (check_sound c o t Ht).
+Qed.
+
+(* ================================================================== *)
+(* 8. equal hash streams imply == (justifies modelling a hash-table hit by [heq] alone) *)
+(* ================================================================== *)
+Lemma heq_tup_unfold : forall l l', heq (VTup l) (VTup l') = all2 heq l l'.
+Proof. reflexivity. Qed.
+Lemma heq_set_unfold : forall k n l k' n' l', heq (VSet k n l) (VSet k' n' l') = all2 heq l l'.
+Proof. reflexivity. Qed.
+Lemma feq_tup_unfold : forall l l', feq (VTup l) (VTup l') = all2 feq l l'.
+Proof. reflexivity. Qed.
+Lemma feq_set_unfold : forall k n l k' n' l',
+  feq (VSet k n l) (VSet k' n' l') =
+  Nat.eqb (List.length l) (List.length l') &&
+  forallb (fun x => match l' with [] => false | [y] => feq x y | _ => existsb (heq x) l' end) l.
+Proof. reflexivity. Qed.
+
+Lemma all2_length : forall (f : val -> val -> bool) l l', all2 f l l' = true -> List.length l = List.length l'.
+Proof.
+  intros f l. induction l as [|x l IH]; intros [|y l'] H; cbn in *; try discriminate; [reflexivity|].
+  apply andb_true_iff in H as [_ H]. f_equal. apply IH. exact H.
+Qed.
+
+Lemma all2_In : forall (f : val -> val -> bool) l l' x, all2 f l l' = true -> In x l ->
+  exists y, In y l' /\ f x y = true.
+Proof.
+  intros f l. induction l as [|z l IH]; intros [|y l'] x H Hx; cbn in *; try discriminate; [destruct Hx|].
+  apply andb_true_iff in H as [H1 H2]. destruct Hx as [Hx|Hx].
+  - subst. exists y. split; [left; reflexivity | exact H1].
+  - destruct (IH l' x H2 Hx) as (y' & Hy' & Hf). exists y'. split; [right; exact Hy' | exact Hf].
+Qed.
+
+Lemma all2_impl_in : forall (f g : val -> val -> bool) l,
+  Forall (fun x => forall y, f x y = true -> g x y = true) l ->
+  forall l', all2 f l l' = true -> all2 g l l' = true.
+Proof.
+  intros f g l H. induction H as [|x l Hx _ IH]; intros [|y l'] H2; cbn in *; try discriminate; [reflexivity|].
+  apply andb_true_iff in H2 as [H2 H3]. rewrite (Hx y H2), (IH l' H3). reflexivity.
+Qed.
+
+Lemma heq_feq : forall a b, heq a b = true -> feq a b = true.
+Proof.
+  apply (val_ind' (fun a => forall b, heq a b = true -> feq a b = true)).
+  - intros k z []; cbn; try discriminate. auto.
+  - intros k x []; cbn; try discriminate. intros H. apply andb_true_iff in H as [H1 H2].
+    rewrite H1, H2. reflexivity.
+  - intros n d []; cbn; try discriminate. auto.
+  - intros s []; cbn; try discriminate. auto.
+  - intros x []; cbn; try discriminate. auto.
+  - intros l IH []; try discriminate. rewrite heq_tup_unfold, feq_tup_unfold. apply all2_impl_in. exact IH.
+  - intros k n l IH []; try discriminate. rewrite heq_set_unfold, feq_set_unfold. intros H.
+    rewrite (all2_length _ _ _ H), Nat.eqb_refl. cbn [andb]. apply forallb_forall. intros x Hx.
+    destruct (all2_In _ _ _ x H Hx) as (y & Hy & Hxy). rewrite Forall_forall in IH.
+    destruct l0 as [|y0 [|y1 r]].
+    + destruct Hy.
+    + destruct Hy as [Hy|[]]. subst. apply IH; assumption.
+    + apply existsb_exists. exists y. split; assumption.
+Qed.
+
+(* ================================================================== *)
+(* 9. comprehensions: what the qualifier machinery computes for the basic shapes *)
+(* ================================================================== *)
+Lemma lookup_hd : forall x v e, lookup x ((x, v) :: e) = Some v.
+Proof. intros. cbn. rewrite String.eqb_refl. reflexivity. Qed.
+
+Lemma map_opt_map_some : forall (A B C : Type) (f : B -> option C) (g : A -> B) (h : A -> C) l,
+  (forall a, f (g a) = Some (h a)) -> map_opt f (map g l) = Some (map h l).
+Proof.
+  intros A B C f g h l H. induction l as [|a l IH]; [reflexivity|]. cbn. rewrite H, IH. reflexivity.
+Qed.
+
+Lemma map_opt_app : forall (A B : Type) (f : A -> option B) l l' r r',
+  map_opt f l = Some r -> map_opt f l' = Some r' -> map_opt f (l ++ l') = Some (r ++ r').
+Proof.
+  intros A B f l. induction l as [|a l IH]; intros l' r r' H H'; cbn in *.
+  - inversion H; subst. exact H'.
+  - destruct (f a); [|discriminate]. destruct (map_opt f l) as [s|] eqn:Hs; [|discriminate].
+    inversion H; subst. rewrite (IH l' s r' eq_refl H'). reflexivity.
+Qed.
+
+Lemma map_opt_flat_map : forall (A B C : Type) (f : B -> option C) (g : A -> list B) (h : A -> list C) l,
+  (forall a, map_opt f (g a) = Some (h a)) -> map_opt f (flat_map g l) = Some (flat_map h l).
+Proof.
+  intros A B C f g h l H. induction l as [|a l IH]; [reflexivity|]. cbn [flat_map].
+  apply map_opt_app; [apply H | exact IH].
+Qed.
+
+Lemma flat_map_map' : forall (A B C : Type) (g : A -> B) (f : B -> list C) l,
+  flat_map f (map g l) = flat_map (fun a => f (g a)) l.
+Proof. intros. induction l as [|a l IH]; [reflexivity|]. cbn. rewrite IH. reflexivity. Qed.
+
+Lemma filter_map' : forall (A B : Type) (g : A -> B) (p : B -> bool) l,
+  filter p (map g l) = map g (filter (fun a => p (g a)) l).
+Proof.
+  intros. induction l as [|a l IH]; [reflexivity|]. cbn. rewrite IH. destruct (p (g a)); reflexivity.
+Qed.
+
+(* x <- A with x unbound: one environment per element, in order *)
+Lemma gen_var_nil : forall x A, filter_map (fun v => pmatch (PVar x) v []) A = map (fun v => [(x, v)]) A.
+Proof.
+  intros x A. induction A as [|a A IH]; [reflexivity|]. cbn [filter_map map].
+  change (pmatch (PVar x) a []) with (Some [(x, a)]). rewrite IH. reflexivity.
+Qed.
+
+(* y <- B with another variable already bound: every element extends the environment *)
+Lemma gen_var_fresh : forall x y a B, String.eqb y x = false ->
+  filter_map (fun v => pmatch (PVar y) v [(x, a)]) B = map (fun b => [(y, b); (x, a)]) B.
+Proof.
+  intros x y a B H. induction B as [|b B IH]; [reflexivity|]. cbn [filter_map map].
+  assert (Hp : pmatch (PVar y) b [(x, a)] = Some [(y, b); (x, a)]) by (cbn; rewrite H; reflexivity).
+  rewrite Hp, IH. reflexivity.
+Qed.
+
+(* x <- B with x already bound: a join — only the elements equal to the bound value pass *)
+Lemma gen_var_bound : forall x a B,
+  filter_map (fun v => pmatch (PVar x) v [(x, a)]) B = map (fun _ => [(x, a)]) (filter (veq a) B).
+Proof.
+  intros x a B. induction B as [|b B IH]; [reflexivity|]. cbn [filter_map filter].
+  assert (Hp : pmatch (PVar x) b [(x, a)] = if veq a b then Some [(x, a)] else None)
+    by (cbn; rewrite String.eqb_refl; reflexivity).
+  rewrite Hp. destruct (veq a b); cbn [map]; rewrite IH; reflexivity.
+Qed.
+
+Lemma first_gen : forall x A, step_qual [[]] (QGen (PVar x) A) = map (fun v => [(x, v)]) A.
+Proof. intros. cbn. rewrite app_nil_r. apply gen_var_nil. Qed.
+
+(* { x | x <- A } lists exactly A *)
+Lemma comp_identity : forall x A, comp_values (TVar x) [QGen (PVar x) A] = Some A.
+Proof.
+  intros x A. unfold comp_values, run_quals. cbn [quals_ok andb fold_left]. rewrite first_gen.
+  rewrite (map_opt_map_some _ _ _ _ _ (fun v => v)); [rewrite map_id; reflexivity|].
+  intros a. cbn [eval_term]. apply lookup_hd.
+Qed.
+
+(* { (x,y) | x <- A, y <- B } lists the cartesian product *)
+Lemma comp_product : forall x y A B, String.eqb x y = false ->
+  comp_values (TPair (TVar x) (TVar y)) [QGen (PVar x) A; QGen (PVar y) B] =
+  Some (flat_map (fun a => map (fun b => VTup [a; b]) B) A).
+Proof.
+  intros x y A B Hxy. assert (Hyx : String.eqb y x = false) by (rewrite String.eqb_sym; exact Hxy).
+  unfold comp_values, run_quals. cbn [quals_ok andb fold_left]. rewrite first_gen.
+  cbn [step_qual]. rewrite flat_map_map'.
+  apply map_opt_flat_map. intros a. rewrite (gen_var_fresh x y a B Hyx).
+  apply map_opt_map_some. intros b. cbn [eval_term lookup]. rewrite Hxy, String.eqb_refl, String.eqb_refl. reflexivity.
+Qed.
+
+(* { x | x <- A, x <- B } (a repeated variable) is a join ... *)
+Lemma comp_join : forall x A B,
+  comp_values (TVar x) [QGen (PVar x) A; QGen (PVar x) B] =
+  Some (flat_map (fun a => map (fun _ => a) (filter (veq a) B)) A).
+Proof.
+  intros x A B. unfold comp_values, run_quals. cbn [quals_ok andb fold_left]. rewrite first_gen.
+  cbn [step_qual]. rewrite flat_map_map'.
+  apply map_opt_flat_map. intros a. rewrite (gen_var_bound x a B).
+  apply map_opt_map_some. intros b. cbn [eval_term]. apply lookup_hd.
+Qed.
+
+(* ... whose elements are those of the intersection *)
+Lemma comp_join_is_inter : forall A B v,
+  inS v (flat_map (fun a => map (fun _ => a) (filter (veq a) B)) A) <-> inS v A /\ inS v B.
+Proof.
+  intros A B v. rewrite !inS_iff. split.
+  - intros (z & Hz & Hvz). apply in_flat_map in Hz as (a & Ha & Hz). apply in_map_iff in Hz as (b & Hb & Hbf).
+    subst z. apply filter_In in Hbf as [Hb Hab]. split; [exists a; auto|].
+    exists b. split; [exact Hb | exact (veq_trans v a b Hvz Hab)].
+  - intros [(a & Ha & Hva) (b & Hb & Hvb)]. exists a. split; [|exact Hva].
+    apply in_flat_map. exists a. split; [exact Ha|]. apply in_map_iff. exists b. split; [reflexivity|].
+    apply filter_In. split; [exact Hb|]. apply (veq_trans a v b); [rewrite veq_sym; exact Hva | exact Hvb].
+Qed.
+
+(* { x | x <- A, x o c } keeps exactly the elements that satisfy the comparison *)
+Lemma comp_filter_const : forall x o c A,
+  (forall a, In a A -> eval_cmp o a c <> None) ->
+  comp_values (TVar x) [QGen (PVar x) A; QFilter o (TVar x) (TConst c)] =
+  Some (filter (fun a => match eval_cmp o a c with Some true => true | _ => false end) A).
+Proof.
+  intros x o c A Hdef. unfold comp_values, run_quals. cbn [quals_ok fold_left]. rewrite first_gen.
+  assert (Hfe : forall a, filter_env o (TVar x) (TConst c) [(x, a)] = eval_cmp o a c).
+  { intros a. unfold filter_env. cbn [eval_term]. rewrite lookup_hd. reflexivity. }
+  assert (Hq : forallb (fun e => match filter_env o (TVar x) (TConst c) e with Some _ => true | None => false end)
+                 (map (fun v => [(x, v)]) A) = true).
+  { apply forallb_forall. intros e He. apply in_map_iff in He as (a & Hae & Ha). subst e. rewrite Hfe.
+    specialize (Hdef a Ha). destruct (eval_cmp o a c); [reflexivity | congruence]. }
+  rewrite Hq. cbn [andb quals_ok step_qual]. rewrite filter_map'.
+  erewrite (filter_ext _ (fun a => match eval_cmp o a c with Some true => true | _ => false end)) by (intros a; rewrite Hfe; reflexivity).
+  rewrite (map_opt_map_some _ _ _ _ _ (fun v => v)); [rewrite map_id; reflexivity|].
+  intros a. cbn [eval_term]. apply lookup_hd.
+Qed.
+
+(* ================================================================== *)
